@@ -249,6 +249,10 @@ def tie(tier, seed, replay):
     t0 = time.time()
     pm = c04_param.run(tier, seed, corpus_path=CORPUS)
     mism += pm["mismatches"]
+    # the two recorded genuine defects (known_findings.json) must still reproduce on the real code: gen/c04_known.py
+    from .. import c04_known
+    kn = c04_known.run()
+    mism += kn["mismatches"]
     times["parameterised_aggregators"] = round(time.time() - t0, 1)
     sample = [dict(program=r["text"], summary=r["summary"], input=r["case"]["inputs"][0],
                    impl={k: v[1][:6] for k, v in prog.canon_snap(r["impl"][0]["snaps"][-1]).items()} if r["impl"] and "snaps" in r["impl"][0] else r["impl"])
